@@ -855,6 +855,25 @@ fn env_in_word(token: &str, quoted: bool) -> bool {
     !libs::re::re_contains(token, &ptn_env)
 }
 
+/// Whether a `<` or `>` is written in the word itself -- not in the text of
+/// a command substitution, which is a command line of its own.
+fn has_written_redirection(word: &str) -> bool {
+    let mut rest = word.to_string();
+    loop {
+        match split_first_substitution(&rest) {
+            Some((head, _, tail)) => {
+                if head.contains('<') || head.contains('>') {
+                    return true;
+                }
+                rest = tail;
+            }
+            None => {
+                return rest.contains('<') || rest.contains('>');
+            }
+        }
+    }
+}
+
 pub fn expand_env(sh: &Shell, tokens: &mut types::Tokens) {
     let mut idx: usize = 0;
     let mut buff = Vec::new();
@@ -900,7 +919,7 @@ pub fn expand_env(sh: &Shell, tokens: &mut types::Tokens) {
         // word must not be read as syntax by the later passes
         // (a word in which a redirection is written, like `2>$F`, keeps it)
         if tokens[*i].0.is_empty() && !in_assignment_prefix(tokens, *i)
-                && !tokens[*i].1.contains('<') && !tokens[*i].1.contains('>')
+                && !has_written_redirection(&tokens[*i].1)
                 && has_operator_char(text) {
             tokens[*i].0 = String::from("\"");
         }
